@@ -213,7 +213,7 @@ pub fn run_c11(tier: Tier, seed: u64) -> i32 {
         tier,
         seed,
         "exploration",
-        "generated Parquet file sets (1-8 files, 0-30 row groups each, empty files, zero-row row groups in the middle of a file, narrow and wide schemas) x node counts 1..64: interval cover per (file,row group) against a footer inventory read independently with the parquet crate; byte and row totals; canonical order; invariance under file-list permutation and relocation; digest sensitivity to rename / re-row-grouping / one more row / wider values, judged by whether the independent inventories differ. distinct = distinct (inventory, node count) pairs with >= 2 row groups",
+        "generated Parquet file sets (1-8 files, 0-30 row groups each, empty files, zero-row row groups in the middle of a file, narrow and wide schemas) x node counts 1..64: interval cover per (file,row group) against a footer inventory read independently with the parquet crate; byte and row totals; canonical order; invariance under file-list permutation and relocation; digest sensitivity to rename / re-row-grouping / one more row / wider values, judged by whether the independent inventories differ; one file rewritten in place between two enumerations of the same path (mtime new / kept / moved earlier): cover and digest of the second enumeration against the new inventory. distinct = distinct (inventory, node count) pairs with >= 2 row groups",
     );
     let scratch = Scratch::new("c11");
     let mut rng = Rng::new(seed ^ 0xC11);
@@ -329,6 +329,56 @@ pub fn run_c11(tier: Tier, seed: u64) -> i32 {
                 }
                 if let Err(e) = check_cover(&set2, &inv2) {
                     rep.fail("cover", &format!("after {}: {}", kind, e), replay.clone());
+                }
+            }
+        }
+        // --- a file rewritten IN PLACE between two enumerations of the same path (one more
+        // row; its mtime left new, put back to the old one, or moved before it): the second
+        // enumeration must describe what the path holds now
+        {
+            let fi = rng.usize(fs.files.len());
+            let nodes = *rng.pick(&[1usize, 2, 3, 5, 8]);
+            if fs.rows[fi] > 0 {
+                let vd = dir.join("inplace");
+                let files = copy_dir(&fs.files, &vd);
+                if let Ok(first) = enumerate_parquet("t", &files, nodes) {
+                    let old_mtime = std::fs::metadata(&files[fi]).unwrap().modified().unwrap();
+                    std::thread::sleep(std::time::Duration::from_millis(20));
+                    let rd = parquet::arrow::arrow_reader::ParquetRecordBatchReaderBuilder::try_new(std::fs::File::open(&files[fi]).unwrap()).unwrap();
+                    let schema = rd.schema().clone();
+                    let old_rg = {
+                        let r = SerializedFileReader::new(std::fs::File::open(&files[fi]).unwrap()).unwrap();
+                        r.metadata().row_group(0).num_rows() as usize
+                    };
+                    let batches: Vec<_> = rd.build().unwrap().map(|b| b.unwrap()).collect();
+                    let all = arrow::compute::concat_batches(&schema, &batches).unwrap();
+                    let out = arrow::compute::concat_batches(&schema, &[all.clone(), all.slice(0, 1)]).unwrap();
+                    let o = PqOpts { files: 1, rg_rows: old_rg.max(1), dictionary: false, snappy: false, stats: true };
+                    write_parquet_file(&files[fi], schema.clone(), &[out], &o);
+                    let policy = *rng.pick(&["mtime-new", "mtime-kept", "mtime-earlier"]);
+                    let set_to = match policy {
+                        "mtime-kept" => Some(old_mtime),
+                        "mtime-earlier" => Some(old_mtime - std::time::Duration::from_secs(10)),
+                        _ => None,
+                    };
+                    if let Some(t) = set_to {
+                        std::fs::File::options().write(true).open(&files[fi]).unwrap().set_modified(t).unwrap();
+                    }
+                    let inv2 = inventory(&files);
+                    let replay = json!({"file_rows": fs.rows, "nodes": nodes, "rewritten_file": fi, "mtime_policy": policy, "inventory_after": inv2.iter().map(|(k, v)| format!("{}#{}: {} rows {} bytes", k.0, k.1, v.0, v.1)).collect::<Vec<_>>()});
+                    match enumerate_parquet("t", &files, nodes) {
+                        Ok(second) => {
+                            rep.eval();
+                            rep.count("in_place_rewrites_followed_by_a_second_enumeration", 1);
+                            if inv2 != inv && second.digest() == first.digest() {
+                                rep.fail(&format!("digest-blind-inplace-rewrite-{}", policy), "a file was rewritten in place with one more row and the digest of the next enumeration did not change", replay.clone());
+                            }
+                            if let Err(e) = check_cover(&second, &inv2) {
+                                rep.fail(&format!("cover-after-inplace-rewrite-{}", policy), &e, replay.clone());
+                            }
+                        }
+                        Err(e) => rep.fail("enumerate-error", &format!("after an in-place rewrite: {}", e), replay.clone()),
+                    }
                 }
             }
         }
